@@ -163,7 +163,7 @@ func wrapWorkerContainer(trial *trialsv1beta1.Trial, pod *v1.Pod, namespace,
 			return err
 		}
 		// If the first two commands are sh -c, we do not inject command.
-		if args[0] == "sh" || args[0] == "bash" {
+		if len(args) > 1 && (args[0] == "sh" || args[0] == "bash") {
 			if args[1] == "-c" {
 				command = args[0:2]
 				args = args[2:]
